@@ -851,6 +851,77 @@ for fl in ('reverse', 'socks5'):
     if isinstance(r, int) and r > 0:
         chk.violation(f'udp.{fl}->socks5', 'datagram-lost:upstream-enforces-announced-client-address', f'{fl} -> socks connector -> a SOCKS5 listener with enforceUdpClient: {r} of 3 datagrams were not delivered', {'listener': fl, 'lost': r})
 
+# ---- a client whose FIRST session could not be set up (the upstream proxy was down) is a client like any other once the
+#      upstream is back: the same socket sends again and its datagram is delivered (first datagram of a new session).
+#      Reverse UDP listener -> http / socks connector -> second hop that is started late
+def run_late_upstream(ckind):
+    qb = {k: free_port() for k in ('up', 'api')}
+    qa = {k: free_port() for k in ('ru', 'api')}
+    conn = {'http': {'name': 'c', 'type': 'http', 'server': '127.0.0.1', 'port': qb['up']}, 'socks5': {'name': 'c', 'type': 'socks', 'server': '127.0.0.1', 'port': qb['up'], 'version': 5}}[ckind]
+    pf = Proxy({'listeners': [{'name': 'rudp', 'type': 'reverse', 'protocol': 'udp', 'bind': f"127.0.0.1:{qa['ru']}", 'target': f'127.0.0.1:{origin.port}'}],
+                'connectors': [conn], 'rules': [{'target': 'c'}], 'timeouts': {'udp': 30}, 'metrics': {'bind': f"127.0.0.1:{qa['api']}", 'ui': None}}, 'c10l')
+    pf.api_port = qa['api']
+    if not pf.start([qa['api']]):
+        return 'no-start'
+    pb_ = None
+    try:
+        u = socket.socket(socket.AF_INET, socket.SOCK_DGRAM); u.bind(('127.0.0.1', 0)); u.settimeout(1.5)
+        p1 = tagged(30, f'late-{ckind}-one')
+        u.sendto(p1, ('127.0.0.1', qa['ru']))
+        try:
+            u.recvfrom(4000)
+            return 'answered-with-the-upstream-down'
+        except OSError:
+            pass
+        time.sleep(0.5)
+        pb_ = Proxy({'listeners': [{'name': 'up', 'type': ('http' if ckind == 'http' else 'socks'), 'bind': f"127.0.0.1:{qb['up']}"}], 'connectors': [{'name': 'direct'}], 'rules': [{'target': 'direct'}],
+                     'metrics': {'bind': f"127.0.0.1:{qb['api']}", 'ui': None}}, 'c10m')
+        pb_.api_port = qb['api']
+        if not pb_.start([qb['up'], qb['api']]):
+            return 'no-start'
+        v = socket.socket(socket.AF_INET, socket.SOCK_DGRAM); v.bind(('127.0.0.1', 0)); v.settimeout(2.0)
+        fresh = False
+        for i in range(4):
+            pv = tagged(30, f'late-{ckind}-fresh-{i}')
+            v.sendto(pv, ('127.0.0.1', qa['ru']))
+            try:
+                d, _ = v.recvfrom(4000)
+                if d.endswith(b'R' + pv):
+                    fresh = True
+                    break
+            except OSError:
+                pass
+        v.close()
+        if not fresh:
+            return 'fresh-client-not-served-after-the-upstream-came-up'
+        served = None
+        u.settimeout(1.0)
+        for i in range(8):
+            p2 = tagged(30, f'late-{ckind}-two-{i}')
+            u.sendto(p2, ('127.0.0.1', qa['ru']))
+            try:
+                d, _ = u.recvfrom(4000)
+                if d.endswith(b'R' + p2):
+                    served = i
+                    break
+            except OSError:
+                pass
+        u.close()
+        return ('served', served)
+    finally:
+        pf.stop()
+        if pb_:
+            pb_.stop()
+for ckind in ('http', 'socks5'):
+    evals += 1
+    r = run_late_upstream(ckind)
+    distinct.add(('late-upstream', ckind, str(r)))
+    if r in ('no-start', 'fresh-client-not-served-after-the-upstream-came-up', 'answered-with-the-upstream-down'):
+        machinery(f'late upstream {ckind}: {r}')
+    if r[1] is None:
+        chk.violation(f'udp.reverse->{ckind}', 'datagram-lost:client-whose-first-session-failed', f'reverse UDP -> {ckind} connector: a client sent a datagram while the upstream proxy was down (session set-up failed); with the upstream back - a fresh client is served - 8 further datagrams from the same socket were all lost', {'connector': ckind})
+    samples.append({'late_upstream': ckind, 'same_socket_served_at_attempt': r[1]})
+
 # ---- the relay port of a SOCKS5 UDP association belongs to the client that first uses it: a datagram that another
 #      sender gets into the port's queue at the same moment is not part of that client's session
 def run_foreign(c):
@@ -896,6 +967,6 @@ origin.stop()
 if evals < 100 or len(distinct) < 10:
     machinery(f'vacuous: evals={evals} distinct={len(distinct)}')
 cov = {'evaluations': evals, 'distinct_nontrivial': len(distinct), 'transitions': evals, 'traces_validated_against_impl': evals,
-       'rule': 'real binaries (two hops): UDP listener {socks5 associate, reverse udp, http CONNECT+Proxy-Protocol: udp inline} x connector {direct, socks5, http inline, quic inline, quic datagrams} x destination {ipv4, ipv6, domain} (quick: rotation) x payload sizes x first/later datagram, lock-step with a tagging echo origin; the largest payloads the client can send per listener and destination kind and sizes around 65505 (thorough: the 60 sizes below the maximum) for every listener x connector; 3 concurrent sessions x 4 rounds per listener x connector; a destination that goes away and comes back on its port (the pending receive error must not reach the client as a datagram); a storm of new sessions on the reverse listener (8 x 80 clients sending their first datagram 0.4 ms apart; no client may get an answer meant for another client); per-datagram destinations inside one association: all ordered triples over {localhost, 127.0.0.1} x {two origins} as a de Bruijn sequence plus all ordered pairs on fresh associations, for socks5 and CONNECT 0.0.0.0:0 x every connector; closed client port per connector',
+       'rule': 'real binaries (two hops): [wave 9: a reverse-UDP client whose first session failed because the upstream proxy was down is served from the same socket once the upstream is up (http, socks5 connector)] UDP listener {socks5 associate, reverse udp, http CONNECT+Proxy-Protocol: udp inline} x connector {direct, socks5, http inline, quic inline, quic datagrams} x destination {ipv4, ipv6, domain} (quick: rotation) x payload sizes x first/later datagram, lock-step with a tagging echo origin; the largest payloads the client can send per listener and destination kind and sizes around 65505 (thorough: the 60 sizes below the maximum) for every listener x connector; 3 concurrent sessions x 4 rounds per listener x connector; a destination that goes away and comes back on its port (the pending receive error must not reach the client as a datagram); a storm of new sessions on the reverse listener (8 x 80 clients sending their first datagram 0.4 ms apart; no client may get an answer meant for another client); per-datagram destinations inside one association: all ordered triples over {localhost, 127.0.0.1} x {two origins} as a de Bruijn sequence plus all ordered pairs on fresh associations, for socks5 and CONNECT 0.0.0.0:0 x every connector; closed client port per connector',
        'cells': len(cells), 'sizes': SIZES, 'deadline_verdicts_rerun': retried[0], 'schedule_control': 'kernel', 'samples': samples}
 sys.exit(chk.finish('exploration', cov, ['loopback, lock-step (send one datagram, await its echo with a 3 s deadline): absent network loss holds', 'TPROXY UDP and the QUIC listener as first hop (needs a QUIC client) are not driven directly: QUIC paths are covered as second hop'], merge=False))
